@@ -23,6 +23,9 @@ type c04Case struct {
 	// GCWindow: only the window Slice(S, S+L) of Alloc(C, P, P) is kept across garbage collections;
 	// allocations of the same shape made afterwards must not be reachable by appending through the window
 	GCWindow bool `json:"gc_window,omitempty"`
+	// Twin: the buffer under test is parent.Slice(0, parent.Length()) of parent = Alloc(C, L, P): a second
+	// header over the same window.  Appending through one must not change the other's length.
+	Twin bool `json:"twin,omitempty"`
 }
 
 func c04Run(cs c04Case) []F {
@@ -36,6 +39,37 @@ func c04RunRaw(cs c04Case) (fs []F) {
 	}
 	if cs.GCWindow {
 		return gcReplay(t, gcShape{cs.C, cs.P, cs.S, cs.S + cs.L}, true, "AppendSample")
+	}
+	if cs.Twin {
+		fail := func(kind, format string, a ...any) {
+			fs = append(fs, core.Failf("AppendSample/"+kind, "%+v: %s", cs, fmt.Sprintf(format, a...)))
+		}
+		parent := dyn.Alloc(t, al(cs.C, cs.L, cs.P))
+		fill(parent, 1)
+		w := parent.Slice(0, parent.Length())
+		hp, hw := hdr(parent), hdr(w)
+		for k := 1; k <= cs.N; k++ {
+			w.AppendSample(dyn.Tok(t, tk(int64(40+k))))
+			if h := hdr(parent); h != hp {
+				fail("twin", "call %d through parent.Slice(0, Length()) changed the parent's own shape from %+v to %+v (every Slice yields a header of its own)", k, hp, h)
+				return
+			}
+			if hw.Len < hw.Cap {
+				hw.Len++
+				hw.Length = ceilDiv(hw.Len, cs.C)
+			}
+			if h := hdr(w); h != hw {
+				fail("view", "after call %d the window has shape %+v, want %+v", k, h, hw)
+				return
+			}
+		}
+		// and the other way round
+		hw = hdr(w)
+		parent.AppendSample(dyn.Tok(t, 9))
+		if h := hdr(w); h != hw {
+			fail("twin", "AppendSample on the parent changed the shape of its window parent.Slice(0, Length()) from %+v to %+v", hw, h)
+		}
+		return
 	}
 	fail := func(kind, format string, a ...any) {
 		fs = append(fs, core.Failf("AppendSample/"+kind, "%+v: %s", cs, fmt.Sprintf(format, a...)))
@@ -151,6 +185,15 @@ func init() {
 				for C := 1; C <= 3; C++ {
 					for sh := 0; sh < len(valSpecials(t)); sh++ {
 						cases = append(cases, c04Case{Type: tn(t), C: C, ValPass: true, Shift: sh, N: C * ((len(valSpecials(t)) + C - 1) / C), P: 1})
+					}
+				}
+			}
+			for _, t := range []int{dyn.Int8, dyn.Float32, dyn.Uint64} { // a second header over the same window
+				for C := 1; C <= 3; C++ {
+					for P := 1; P <= 4; P++ {
+						for L := 0; L < P; L++ {
+							cases = append(cases, c04Case{Type: tn(t), C: C, P: P, L: L, Twin: true, N: C*(P-L) + 2})
+						}
 					}
 				}
 			}
